@@ -34,6 +34,8 @@ def plan(tier, seed):
     for h in ("h_stats_clause", "h_stats_two_clauses", "h_stats_b_without_bounds"):
         jobs.append(ch("C13", "vf/pyshim/h_c05.py", h, t, ["api.filter_out_stats", "api.filter_val"],
                        env=dict(VERIF_SLEN=1)))
+    jobs.append(ch("C13", "vf/pyshim/h_convert.py", "h_stat_bound_decodes", t,
+                   ["encoding.read_plain (stat=True)", "converted_types.convert (as filter_out_stats decodes a bound)"]))
     jobs.append(ch("C13", "vf/pyshim/h_wc.py", "h_cat_stats_ordered", t,
                    ["writer.write_column (statistics of an ordered categorical)"], env=dict(VERIF_CATS=1)))
     from . import pageloop
